@@ -1,4 +1,5 @@
 """C19 — the table of contents lists exactly the qualifying headings, in order."""
+import html as html_mod
 import multiprocessing as mp
 import random
 import re
@@ -24,7 +25,9 @@ def title_ok(w):
     return bool(w) and not (set(w) & TRIGGERS) and '\t' not in w and w[0] not in MARKER_FIRST and not w[-1].isspace()
 
 
-WORDS = ['alpha', 'beta', 'gamma', 'delta', 'omega', 'intro', 'usage', 'notes', 'api', 'faq', 'skipme', 'skip this', 'x1', 'Chapter', 'two words']
+WORDS = ['alpha', 'beta', 'gamma', 'delta', 'omega', 'intro', 'usage', 'notes', 'api', 'faq', 'skipme', 'skip this', 'x1', 'Chapter', 'two words',
+         # characters that are escaped in the rendered heading the table of contents is read from
+         'size < limit', 'a <= b', 'R&D', 'x > y', 'Q&A 1 < 2']
 
 
 def gen_outline(rng):
@@ -164,11 +167,14 @@ def run(ctx, only=None):
         exp = [[lv, w] for lv, w in heads
                if not (omit and lv == 1) and lv <= depth and not any(f(w) for f in FILTERS[fname])]
         inp = {'text': text, 'depth': depth, 'omit_title': omit, 'filters': fname}
-        if r['headings'] != exp:
+        # TocRenderer keeps the titles as it reads them off the rendered heading, i.e. HTML-escaped; the table of contents re-tokenizes them,
+        # which resolves the character references again: what an entry CARRIES is the unescaped text
+        got_heads = [[lv, html_mod.unescape(t)] for lv, t in r['headings']]
+        if got_heads != exp:
             # the parser does not recognise a setext heading inside a block quote (recorded finding of C04)
-            kf = 'kf_setext_in_quote' if sq and r['headings'] == [e for e in exp if e[1] not in sq] else None
+            kf = 'kf_setext_in_quote' if sq and got_heads == [e for e in exp if e[1] not in sq] else None
             ctx.failing.append({'interface': 'oracle', 'input': inp, 'what': 'collected headings differ from the qualifying headings in document order',
-                                'observed': r['headings'], 'expected': exp, 'kf': kf})
+                                'observed': got_heads, 'expected': exp, 'kf': kf})
             continue
         if not exp:
             if r['toc_type'] == 'IndexError':
